@@ -248,4 +248,6 @@ func checkC19(c *core.Ctx) {
 	guardHelpers(c, r2)
 	r3 := c.Rule("R19.3", "D", "decode loops advance: a packet-chosen step has a proven lower bound >= 1")
 	loopProgress(c, r3)
+	r4 := c.Rule("R19.4", "D", "cursor helpers: constant reads through a *[]byte cursor are covered by a length guard on the cursor's current contents, in the helper or at every call site")
+	cursorSites(c, r4)
 }
